@@ -1092,7 +1092,7 @@ static bool canResend(ssl_t *ssl)
     }
     else
     {
-#if 0
+#if 1
         /* Client tests */
         if (ssl->hsState == SSL_HS_SERVER_HELLO)
         {
